@@ -83,8 +83,9 @@ def _coverage(ctx, trace):
                 variants.add((x["d"]["type"], x["d"]["variant"]))
             multi += len(e["ks"]) > 1
         if e["ev"] in USES:
-            if not e["ok"] and not e["panic"]:
-                # which parameterisations have a primitive is a prediction of the driver, not of the property
+            if not e["constructed"] and not e["panic"]:
+                # which parameterisations have a primitive is a prediction of the driver, not of the property; a primitive
+                # that was constructed and then fails to operate IS a usability failure and is judged by the trace spec
                 raise vlib.Infra("C17: a derived key the driver expected to be usable has no primitive: %s"
                                  % json.dumps(vlib._shorten(e)))
             used.add(e.get("type"))
@@ -131,7 +132,7 @@ def run(ctx):
     lines = open(trace).read().splitlines()
     random.Random(ctx.seed).shuffle(lines)          # events are independent: balance the TLC shards
     open(trace, "w").write("\n".join(lines) + "\n")
-    mism, n = ctx.validate_events("Trace_Derive", trace)
+    mism, n = ctx.validate_events("Trace_Derive", trace, max_findings=4)
     ctx.cov["traces_validated_against_impl"] += 1
     ctx.cov["events"] = n
     for k in (3, len(lines) // 3, len(lines) // 2, len(lines) - 7):
